@@ -78,11 +78,22 @@ def query_points(kind, p, t, rng, nmax=60):
     return uniq(ins, nmax), uniq(oth, nmax // 2)
 
 
-def find_recipe(kind, p, t, rng, fam, nsingle=30, nbatch=6):
+# inputs on which the finder raised for a point ON the domain boundary before fix 950586a (inside test with a slack
+# of one machine eps): (kind, p, t, points at scale SCALE)
+ROUNDOFF_REGRESSIONS = [
+    ('tri', [[3, 7, 8, 9, 10, 12], [0, 5, 8, 8, 3, 3]], [[1, 1, 5, 4, 3, 1], [2, 3, 4, 1, 4, 4], [0, 2, 0, 0, 5, 3]],
+     [[22, 16]]),
+    ('tet', [[1, 2, 3, 4, 4, 5], [2, 2, 3, 1, 3, 4], [1, 3, 3, 5, 2, 4]],
+     [[4, 2, 2, 2, 2, 2], [1, 1, 4, 4, 4, 4], [3, 3, 3, 1, 5, 1], [0, 5, 5, 3, 0, 0]], [[10, 6, 12]]),
+]
+
+
+def find_recipe(kind, p, t, rng, fam, nsingle=30, nbatch=6, extra=()):
     ins, oth = query_points(kind, p, t, rng)
+    ins = [list(q) for q in extra] + ins
     pts = ins + oth
     order = rng.permutation(len(pts))
-    calls = [[pts[j]] for j in order[:nsingle]]
+    calls = [[list(q)] for q in extra] + [[pts[j]] for j in order[:nsingle]]
     for _ in range(nbatch):
         n = int(rng.integers(2, 12))
         calls.append([ins[j] for j in rng.integers(0, len(ins), n)])          # with repetition, any order
@@ -427,7 +438,7 @@ def scenario(sid, rec):
 def model(ctx):
     out_file = os.path.join(ctx.scratch, 'c14_universe.json')
     cfg = 'MC_C14_thorough.cfg' if ctx.tier == 'thorough' else 'MC_C14.cfg'
-    ctx.model_must_hold('MC_C14', cfg, env={'OUT_FILE': out_file}, timeout=3000, label='FindImpl => FindOK')
+    ctx.model_must_hold('MC_C14', cfg, env={'OUT_FILE': out_file}, timeout=3000, workers=8, label='FindImpl => FindOK')
     # named deviation (DESIGN section 7 #16): expected to be violated, matched by a known finding
     ctx.model_must_hold('MC_C14', 'MC_C14_linecomp.cfg', env={'OUT_FILE': ''}, timeout=600, workers=2,
                         label='named deviation LineFinderComponents')
@@ -466,6 +477,8 @@ def run(ctx):
         meshes, rng = find_meshes(ctx.tier, ctx.seed)
         recs = [find_recipe(k, p, t, rng, fam, nsingle=40 if th else 24, nbatch=10 if th else 5)
                 for (k, p, t, fam) in meshes]
+        recs += [find_recipe(k, np.array(p, dtype=float), np.array(t), rng, k + '-roundoff-regression', nsingle=10, nbatch=2, extra=x)
+                 for (k, p, t, x) in ROUNDOFF_REGRESSIONS]
         prng = np.random.default_rng(ctx.seed + 1014)
         for name, meta in EL.CATALOGUE.items():
             for variant in range(2 if th else 1):
@@ -479,11 +492,11 @@ def run(ctx):
         for (k, p, t, fam) in extra[::1 if th else 3]:
             recs.append(probe_recipe(k, p, t, p1[k], prng, fam, ctx.tier))
         scs = procs.map(_scen, [(f'C14-{k}', r) for k, r in enumerate(recs)])
-        ctx.validate('TraceC14', scs)
+        ctx.validate('TraceC14', scs, jvms=8)
         out_file = fut.result()
         rrecs = replay_recipes(out_file, ctx.tier, np.random.default_rng(ctx.seed + 2014))
         rscs = procs.map(_scen, [(f'C14-R{k}', r) for k, r in enumerate(rrecs)])
-        ctx.validate('TraceC14', rscs)
+        ctx.validate('TraceC14', rscs, jvms=8)
     finally:
         procs.close()
     keys = {json.dumps([r['kind'], r['p'], r['t'], r.get('elem', '')]) for r in recs + rrecs if len(r['t'][0]) >= 2}
@@ -508,5 +521,5 @@ def replay(ctx, doc):
         ctx.model_must_hold('MC_C14', sc['recipe']['cfg'], env={'OUT_FILE': ''}, timeout=3000)
         return ctx.finish(rule=RULE)
     sc2 = scenario(sc['id'], sc['recipe'])
-    ctx.validate('TraceC14', [sc2])
+    ctx.validate('TraceC14', [sc2], jvms=8)
     return ctx.finish(rule=RULE)
